@@ -115,7 +115,22 @@ func Semantic(j *job.Job, s *job.Sink) {
 		for _, m := range regexp.MustCompile(`import \S+ \{ prefix (\S+); \}`).FindAllStringSubmatch(t, -1) {
 			impPfx = append(impPfx, m[1])
 		}
-		switch r.Intn(15) {
+		switch r.Intn(16) {
+		case 15:
+			// an identity, or an identityref, whose base does not resolve (own prefix or none)
+			pf := ""
+			if ownPfx != "" && r.Intn(2) == 0 {
+				pf = ownPfx + ":"
+			}
+			ins := fmt.Sprintf("  identity zzi {\n    base %snosuchbase;\n  }\n", pf)
+			if r.Intn(2) == 0 {
+				ins = fmt.Sprintf("  leaf zzir {\n    type identityref {\n      base %snosuchbase;\n    }\n  }\n", pf)
+			}
+			if k := strings.LastIndex(t, "}"); k > 0 {
+				t = t[:k] + ins + t[k:]
+				desig = k + strings.Index(ins, "base")
+				fault, want = "identity base that does not resolve", []string{"base"}
+			}
 		case 14:
 			// a range that the range of the typedef it restricts does not admit: the error is about
 			// this range statement, not about the typedef's (a seeded change added the position of
